@@ -105,17 +105,6 @@ deriving DecidableEq, Repr
 
 /-! ## rules (`NewRouteBase`) -/
 
-def modelAnd : Str := ['a', 'n', 'd']
-def modelOr : Str := ['o', 'r']
-
-/-- `VariableMatchItem` -/
-structure VarItem where
-  name : Str
-  value : Option Str
-  regexPattern : Option RegexId
-  model : Str
-deriving DecidableEq, Repr, Inhabited
-
 inductive Rule
   | prefix_ (hm : HttpHeaderMatcher) (p : Str)
   | path (hm : HttpHeaderMatcher) (p : Str)
@@ -275,9 +264,13 @@ def findVirtualHost (t : Tables) (hostVar : Option Str) : Int :=
         | none => t.defaultVirtualHostIndex
         | some (host, port) => findHighestPriorityIndex t host port
 
+/-- the regenerated `findVirtualHost` on a request (`Lemmas.gen_findVirtualHost`: equal to the closed form above) -/
+def findVirtualHostG (t : Tables) (req : Req) : Int := Gen.Route.findVirtualHost splitGraceful t req.var
+
 /-! ## rule matching and selection (`GetRouteFromEntries`, `GetAllRoutesFromEntries`) -/
 
-/-- the loop of `VariableRouteRuleImpl.Match`: `result`, `lastMode` are the loop-carried variables -/
+/-- the loop of `VariableRouteRuleImpl.Match` in closed form (`result`, `lastMode` are the loop-carried variables);
+`Lemmas.gen_variableMatch`: the regenerated function equals it -/
 def varLoop (rx : RxOracle) (ctx : Str → Option Str) : List VarItem → Bool → Str → Bool
   | [], result, _ => result
   | v :: r, result, lastMode =>
@@ -297,16 +290,21 @@ def matchRule (rx : RxOracle) (req : Req) : Rule → Bool
   | .prefix_ hm p => prefixMatch rx req.var req.hdr hm p
   | .path hm p => pathMatch rx req.var req.hdr hm p
   | .regex hm id => regexMatch rx req.var req.hdr hm id
-  | .variable items => varLoop rx req.var items true modelAnd
+  | .variable items => variableMatch rx req.var items
   | .rpc fast hm => rpcMatch rx req.hdr fast hm
 
-/-- `GetRouteFromEntries`: index of the returned rule -/
-def selectRoute (rx : RxOracle) (req : Req) (rules : List Rule) : Option Nat :=
-  rules.findIdx? (matchRule rx req)
+/-- `route.Match(ctx, headers)` on a rule paired with its position: the pair itself or nil -/
+def matchIdx (rx : RxOracle) (req : Req) (p : Rule × Nat) : Option (Rule × Nat) :=
+  if matchRule rx req p.1 then some p else none
 
-/-- `GetAllRoutesFromEntries`: indices of the returned rules -/
+/-- `GetRouteFromEntries` (the regenerated loop run on the rules paired with their positions): index of the
+returned rule -/
+def selectRoute (rx : RxOracle) (req : Req) (rules : List Rule) : Option Nat :=
+  (getRouteFromEntries (matchIdx rx req) rules.zipIdx).map (·.2)
+
+/-- `GetAllRoutesFromEntries` (regenerated loop): indices of the returned rules -/
 def allRoutes (rx : RxOracle) (req : Req) (rules : List Rule) : List Nat :=
-  (List.range rules.length).filter (fun i => (rules[i]?).any (matchRule rx req))
+  (getAllRoutesFromEntries (matchIdx rx req) rules.zipIdx).map (·.2)
 
 /-- the rules of virtual host `i` as `NewVirtualHostImpl` built them -/
 def rulesOf (cfg : Config) (i : Nat) : List Rule :=
@@ -317,7 +315,7 @@ def rulesOf (cfg : Config) (i : Nat) : List Rule :=
 /-- what `MatchRoute` and `MatchAllRoutes` return for a request on the routers built from `cfg`:
 (virtual-host index or −1, index of the returned rule, indices of all returned rules) -/
 def answer (rx : RxOracle) (t : Tables) (cfg : Config) (req : Req) : Int × Option Nat × List Nat :=
-  let vh := findVirtualHost t (req.var varHost)
+  let vh := findVirtualHostG t req
   if vh < 0 then (vh, none, [])
   else (vh, selectRoute rx req (rulesOf cfg vh.toNat), allRoutes rx req (rulesOf cfg vh.toNat))
 
